@@ -323,6 +323,11 @@ func runWorkerWith(bin string, j *job, workDir string, timeout time.Duration, go
 	defer os.Remove(jf.Name())
 	defer os.Remove(of)
 	cmd := exec.Command(bin, "-test.run", "^TestVerifWorker$", "-test.timeout", "0")
+	if !race {
+		// the sandbox has no memory limit: a run that allocates without end must die by itself (the race
+		// detector needs a huge address space and is left alone)
+		cmd = exec.Command("sh", "-c", "ulimit -v 16000000 2>/dev/null; exec \"$0\" \"$@\"", bin, "-test.run", "^TestVerifWorker$", "-test.timeout", "0")
+	}
 	env := append(os.Environ(), "VERIF_JOB="+jf.Name(), "GOMAXPROCS="+gomaxprocs, "TMPDIR="+workDir, "TERM=xterm-256color")
 	if race {
 		env = append(env, "GORACE=halt_on_error=1 exitcode=66")
@@ -677,6 +682,9 @@ func crashViolation(bo *batchOut) (violation, bool) {
 	if strings.Contains(st, "WARNING: DATA RACE") {
 		rep := headFrom(st, "WARNING: DATA RACE")
 		return violation{"race", raceSignature(rep) + "\n" + tail(rep, 6000)}, true
+	}
+	if k := strings.Index(st, "panic: CPU-LOOP "); k >= 0 {
+		return violation{"sys.cpu_loop", tail(st[k+len("panic: CPU-LOOP "):], 5000)}, true
 	}
 	idx := strings.Index(st, "panic:")
 	if idx < 0 {
